@@ -106,6 +106,7 @@ func checkC07(w *World, r *Report) {
 	checkErrProp(w, r, tm, sortedFns(tree), "BB-ERRPROP")
 
 	checkDivGuard(w, r, tm, tree)
+	checkAddrCanon(w, r, tm)
 }
 
 // DIV-GUARD ---------------------------------------------------------------------
